@@ -17,7 +17,7 @@ RULE = ('Hypothesis-generated documents with 1..8 headings of every style (ATX w
         'Oracle over the parsed HTML: every generated href="#x" has an element with id x; note calls target an entry of the right list and the '
         'entry links back to the first call; displayed numbers are 1..n in order of first use and list entries follow that order; not-cited entries '
         'are listed without a call; every cross-reference created by the generator became a link to the id actually carried by that heading/table; '
-        'TOC entries equal the headings in order. Non-trivial: >=2 notes with a re-use or inline note, or >=2 heading styles with a cross-reference; '
+        'TOC entries equal the headings in order. One case in two takes the route \'one parse, exports through other writers (ITMZ, OPML, LaTeX, FODT), then the HTML export of the same tree\'. Non-trivial: >=2 notes with a re-use or inline note, or >=2 heading styles with a cross-reference; '
         'distinct by source+option.')
 ASSUMPTIONS = ['cross-references are only created to headings whose title is unique in the document (a duplicate title has no single target)',
                'with EXT_NO_LABELS no cross-references are generated (documented: headers get no id)',
